@@ -118,6 +118,38 @@ def leaf_contracts(T: Types, reg: Registry):
     return [add_history, mem_add]
 
 
+def atomic_append(ctx: RunCtx):
+    """Ownership obligation (kind 5): background writer threads of one invocation run concurrently, so the in-memory history list
+    of an id may only be changed by one atomic `list.append` (or under a lock).  A read-modify-write of the list loses entries."""
+    import ast
+    from pyvc.solve import Obligation
+    fi = ctx.src.function(f"{MS}:MemStateBackend._add_histories")
+    with_nodes = [n for n in ast.walk(fi.node) if isinstance(n, ast.With)]
+    guarded = {id(x) for w in with_nodes for x in ast.walk(w)}
+    bad, n_acc = [], 0
+    parents = {}
+    for node in ast.walk(fi.node):
+        for ch in ast.iter_child_nodes(node):
+            parents[id(ch)] = node
+    for node in ast.walk(fi.node):
+        if isinstance(node, ast.Attribute) and node.attr == "_history" and isinstance(node.value, ast.Name) and node.value.id == "self":
+            n_acc += 1
+            if id(node) in guarded:
+                continue
+            sub = parents.get(id(node))
+            att = parents.get(id(sub)) if isinstance(sub, ast.Subscript) else None
+            call = parents.get(id(att)) if isinstance(att, ast.Attribute) else None
+            ok = isinstance(sub, ast.Subscript) and isinstance(sub.ctx, ast.Load) and isinstance(att, ast.Attribute) and att.attr == "append" \
+                and isinstance(call, ast.Call) and call.func is att
+            if not ok:
+                bad.append(f"line {node.lineno}: self._history used other than `self._history[id].append(entry)` outside a lock")
+    ok = n_acc > 0 and not bad
+    o = Obligation(name=f"{PID}/ownership/MemStateBackend._add_histories/history-list-changed-only-by-one-atomic-append-or-under-a-lock",
+                   kind="perm", pc=[], goal=z3.BoolVal(ok), function=fi.key)
+    o.status, o.backend, o.detail = ("discharged" if ok else "failed"), "ast-scan", " | ".join(bad)[:400]
+    return [o]
+
+
 # --------------------------------------------------------------------------- bounded: flushed history == sequence of successful transitions
 def history_of_lifecycles(ctx: RunCtx) -> BoundedResult:
     from pynenc.exceptions import InvocationStatusError
@@ -177,7 +209,7 @@ def build(ctx: RunCtx) -> Prop:
         pid=PID, title="every successful transition is followed by exactly one history request carrying the returned record and the same id, none on refusal; "
                        "registration records one entry per new invocation; add_history starts exactly one writer registered for flush; Mem append",
         level="proof", technique="contract-based deductive verification (AST->z3 VCs; thread starts as trace obligations) + bounded lifecycle histories on both backends",
-        registry=reg, verify=verify, bounded=[history_of_lifecycles],
+        registry=reg, verify=verify, lemmas=[atomic_append], bounded=[history_of_lifecycles],
         assumptions=GLUE_ASSUMPTIONS + ["threading.Thread.start runs the target exactly once; join waits for it",
                                         "the clock is strictly increasing between two status changes of one invocation (history ordering by timestamp)"],
         trusted_base=GLUE_TRUSTED + ["sqlite3 (history table: bounded stand-in only)"],
